@@ -14,15 +14,21 @@ RULE = ('histories of register / unregister / set_target_info over collectors dr
         'with units): custom collectors with describe(), without describe(), describing other families than they '
         'collect, describing one name twice; built-in Counter/Gauge/Summary/Histogram/Info/Enum registering themselves '
         'in their constructor; auto_describe on and off; target info at construction and by set_target_info; '
+        'custom collectors handing describe() / collect() back in every iterable shape (list, tuple, deque, generator '
+        'function, generator expression, lazily building generator, iter(list), map, itertools.chain, iterator object, '
+        're-iterable non-sequence, __getitem__-only sequence; empty ones included), for describe() and, under '
+        'auto_describe, for collect(); '
         'collectors that CHANGE what they describe / collect in the middle of a history (op mut), created series '
         'switched off and on in the middle of a history (op created: disable_created_metrics / enable_created_metrics) '
         'and switched off from the start through PROMETHEUS_DISABLE_CREATED_SERIES in a child interpreter. '
-        'Exhaustive: every history of length <= 3 over 14 ops (6 collectors) for 5 fixed collector sets, length 4 over 4 '
-        'collectors; then seeded random histories up to length 40.  Non-trivial = at least one rejected call and one '
+        'Exhaustive: every history of length <= 3 over 14 ops (6 collectors) for 5 fixed collector sets and one set mixing '
+        'the iterable shapes, length <= 2 for the described / undescribed sets under each of the 11 non-list shapes, '
+        'length 4 over 4 collectors; then seeded random histories up to length 40.  Non-trivial = at least one rejected call and one '
         'successful unregister, or a rejected call followed by a success of the same collector; distinct by case')
 TRUSTED = ['CPython dict insertion order and set semantics (modelled as association lists)',
-           'collector objects are abstracted to (describe() result, collect() result), re-read after every step that can '
-           'change them; the names a collector claims are those of the family types it described when it was registered, '
+           'collector objects are abstracted to (describe() result, collect() result) = the sequence of families ONE pass '
+           'over the returned iterable yields (whatever its shape: list, generator, one-shot iterator ...), re-read after '
+           'every step that can change them; the names a collector claims are those of the family types it described when it was registered, '
            '_created included whether or not created series are exported']
 ASSUMPTIONS = ['claimed names follow the OpenMetrics suffix table of the property statement (counter: _total,_created; '
                'summary: _sum,_count,_created; histogram: _bucket,_sum,_count,_created; gaugehistogram: _bucket,_gsum,_gcount; '
@@ -105,8 +111,86 @@ def canon_family(m):
             [[s.name, [list(kv) for kv in sorted(s.labels.items())], payload(s)] for s in m.samples]]
 
 
+# Every iterable shape a collector may legitimately hand back from describe() / collect() (both are only required to be
+# an Iterable[Metric]): re-iterable containers, one-shot iterators, generators.  'genfunc' / 'lazy' make the METHOD itself a
+# generator function (how custom collectors are usually written); 'lazy' builds each family only when it is asked for.
+SHAPES = ['list', 'tuple', 'genfunc', 'iter', 'genexpr', 'lazy', 'map', 'chain', 'deque', 'iterable', 'iterator', 'getitem']
+ONE_SHOT = ('genfunc', 'iter', 'genexpr', 'lazy', 'map', 'chain', 'iterator')
+
+
+class OneShot:
+    """An iterator object (no generator): exhausted after one pass, no len(), no indexing."""
+
+    def __init__(self, items):
+        self.items, self.i = list(items), 0
+
+    def __iter__(self):
+        return self
+
+    def __next__(self):
+        if self.i >= len(self.items):
+            raise StopIteration
+        self.i += 1
+        return self.items[self.i - 1]
+
+
+class Fresh:
+    """An iterable that is no sequence: every iter() starts a fresh pass; no len(), no indexing."""
+
+    def __init__(self, items):
+        self.items = list(items)
+
+    def __iter__(self):
+        return iter(list(self.items))
+
+
+class Indexed:
+    """Iterable through the old sequence protocol only (__getitem__ until IndexError)."""
+
+    def __init__(self, items):
+        self.items = list(items)
+
+    def __getitem__(self, i):
+        if i < 0:
+            raise IndexError(i)
+        return self.items[i]
+
+
+def shaped(shape, items):
+    """items (a list) as an iterable of the given shape."""
+    import collections
+    items = list(items)
+    if shape == 'tuple':
+        return tuple(items)
+    if shape == 'iter':
+        return iter(items)
+    if shape in ('genexpr', 'genfunc', 'lazy'):
+        return (x for x in items)
+    if shape == 'map':
+        return map(lambda x: x, items)
+    if shape == 'chain':
+        return itertools.chain(items[:1], iter(items[1:]))
+    if shape == 'deque':
+        return collections.deque(items)
+    if shape == 'iterable':
+        return Fresh(items)
+    if shape == 'iterator':
+        return OneShot(items)
+    if shape == 'getitem':
+        return Indexed(items)
+    return items
+
+
+def copy_family(m):
+    import copy
+    c = copy.copy(m)
+    c.samples = list(m.samples)
+    return c
+
+
 class Custom:
-    """A collector without describe(); behaviours = [(describe result or None, families)], switched by op mut."""
+    """A collector without describe(); behaviours = [(describe result or None, families)], switched by op mut.
+    The subclasses made by collector_class hand the same families back in another iterable shape."""
 
     def __init__(self, cid, behaviours, log):
         self.cid, self.behaviours, self.log = cid, behaviours, log
@@ -123,6 +207,58 @@ class Custom:
 class Described(Custom):
     def describe(self):
         return list(self.desc)
+
+
+_CLASSES = {}
+
+
+def collector_class(has_describe, dshape, cshape):
+    """The class of a custom collector whose describe() / collect() return the given shapes."""
+    key = (has_describe, dshape if has_describe else 'list', cshape)
+    if key in _CLASSES:
+        return _CLASSES[key]
+    ns = {}
+    if cshape == 'genfunc':
+        def collect(self):
+            self.log.append(self.cid)       # runs when the first family is asked for
+            for f in list(self.fams):
+                yield f
+    elif cshape == 'lazy':
+        def collect(self):
+            self.log.append(self.cid)
+            i = 0
+            while i < len(self.fams):
+                yield copy_family(self.fams[i])
+                i += 1
+    else:
+        def collect(self):
+            self.log.append(self.cid)
+            return shaped(cshape, self.fams)
+    if key[2] != 'list':
+        ns['collect'] = collect
+    if has_describe and dshape == 'genfunc':
+        def describe(self):
+            for m in list(self.desc):
+                yield m
+    elif has_describe and dshape == 'lazy':
+        def describe(self):
+            i = 0
+            while i < len(self.desc):
+                yield copy_family(self.desc[i])
+                i += 1
+    else:
+        def describe(self):
+            return shaped(dshape, self.desc)
+    if has_describe and key[1] != 'list':
+        ns['describe'] = describe
+    cls = type('Custom_%s_%s' % (key[1] if has_describe else 'nodesc', cshape), (Described if has_describe else Custom,), ns)
+    _CLASSES[key] = cls
+    return cls
+
+
+def shape_of(spec):
+    sh = spec.get('shape') or ['list', 'list']
+    return [sh[0] if sh[0] in SHAPES else 'list', sh[1] if sh[1] in SHAPES else 'list']
 
 
 def builtin_class(name):
@@ -156,7 +292,8 @@ class World:
                     for m in fams:
                         for s in m.samples:
                             u.add(s.name)
-                o = (Custom if spec['desc'] is None else Described)(cid, behaviours, self.log)
+                dshape, cshape = shape_of(spec)
+                o = collector_class(spec['desc'] is not None, dshape, cshape)(cid, behaviours, self.log)
             else:
                 o = self.construct(cid, spec, None)
                 for m in list(o.describe()) + list(o.collect()):
@@ -336,6 +473,10 @@ def step_oracle(w, auto, held, op, outcome, before, after):
     for f in fams1:
         if f[0] == 'collect() raised':
             v.append('collect() raised %s' % f[1])
+    # -- collect() hands on what the collectors it asks expose (one pass over whatever iterable they return), plus target info
+    exp_fams = msort(([TARGET_FAMILY(ti1)] if ti1 else []) + [f for c in seq1 for f in w.env[c][1]])
+    if not v and fams1 != exp_fams:
+        v.append('collect() asks collectors %s and yields %s; they expose %s' % (seq1, fams1[:4], exp_fams[:4]))
     failed = outcome != 'ok'
     mine = w.claims(op[1], auto) if op[0] == 'reg' else set()
     held0 = {c: set(ns) for c, ns in held.names.items()}
@@ -666,6 +807,11 @@ def classify(case, obs):
         keys.append('%s:%s' % (op[0], st[0]))
     for c in case['colls']:
         keys.append('coll:' + (c['cls'] if c['k'] == 'builtin' else 'custom-nodesc' if c['desc'] is None else 'custom-desc'))
+        if c['k'] == 'custom':
+            d, k = shape_of(c)
+            if c['desc'] is not None:
+                keys.append('describe-shape:' + d)
+            keys.append('collect-shape:' + k)
     if obs['steps'] and obs['steps'][-1][4]:
         keys.append('ends-with-target-info')
     if case.get('envvar'):
@@ -692,6 +838,8 @@ def neighbours(case):
     out.append(dict(case, auto=not case['auto']))
     out.append(dict(case, ops=[['created', False]] + ops))
     out.append(dict(case, envvar=not case.get('envvar')))
+    for sh in ('genfunc', 'iter', 'tuple'):
+        out.append(dict(case, colls=[shape(c, sh, sh) if c['k'] == 'custom' else c for c in case['colls']]))
     for c, spec in enumerate(case['colls']):
         if spec.get('alts'):
             out.append(dict(case, ops=ops + [['mut', c, 1], ['unreg', c]]))
@@ -713,6 +861,14 @@ def shrinks(case):
         yield dict(case, envvar=False)
     if case.get('init_ti'):
         yield dict(case, init_ti=None)
+    for i, c in enumerate(case['colls']):
+        if c['k'] == 'custom' and shape_of(c) != ['list', 'list']:      # towards plain lists, one method at a time
+            d, k = shape_of(c)
+            for sh in (['list', 'list'], ['list', k], [d, 'list']):
+                if sh != [d, k]:
+                    cs = list(case['colls'])
+                    cs[i] = shape(c, *sh)
+                    yield dict(case, colls=cs)
     for i, c in enumerate(case['colls']):
         if c['k'] == 'custom' and len(c['fams']) > 1:
             for j in range(len(c['fams'])):
@@ -752,7 +908,16 @@ def undescribed(*fams):
 
 def changing(base, *alts):
     """A custom collector that can be switched (op mut) to other behaviours of the same kind."""
-    return dict(base, alts=[{'desc': a['desc'], 'fams': a['fams']} for a in alts])
+    return dict(base, alts=[{'desc': a['desc'], 'fams': a['fams']} for a in alts])      # the shape is that of base
+
+
+def shape(coll, dshape, cshape):
+    """The custom collector coll with describe() / collect() returning the given iterable shapes (see SHAPES)."""
+    c = dict(coll)
+    c.pop('shape', None)
+    if [dshape, cshape] != ['list', 'list']:
+        c['shape'] = [dshape, cshape]
+    return c
 
 
 def builtin(cls, name, unit='', labels=(), children=()):
@@ -784,6 +949,23 @@ FIXED_SETS = [
                builtin('Gauge', TI)], [True]),
 ]
 TI_ON = {'a': 'b'}
+
+# the iterable shapes mixed in one registry (auto_describe on: undescribed collectors are described by collect());
+# the last one describes nothing through a generator that yields nothing
+SHAPE_SET = ('shapes', [shape(described(fam('x', 'counter')), 'genfunc', 'genfunc'),
+                        shape(undescribed(fam('x_total', 'gauge')), 'list', 'iter'),
+                        shape(undescribed(fam('x_count', 'gauge'), fam('x', 'histogram')), 'list', 'genfunc'),
+                        shape(described(fam('x_bucket', 'gauge')), 'iterator', 'tuple'),
+                        shape(described(fam('x_sum', 'gauge'), fam('x', 'info')), 'lazy', 'genexpr'),
+                        shape(described(fam('x_created', 'gauge'), desc=[]), 'genfunc', 'lazy')], [True])
+
+
+def shape_sets():
+    """The described set (describe() decides) and the undescribed set (auto_describe: collect() decides), every custom
+    collector returning shape sh from both methods; then pairs of different shapes."""
+    for sh in SHAPES[1:]:
+        yield sh, [shape(c, sh, sh) for c in FIXED_SETS[0][1]], False
+        yield sh, [shape(c, sh, sh) for c in FIXED_SETS[2][1]], True
 
 # collector sets with their own extra ops: (name, collectors, auto_describe, extra ops)
 DYNAMIC_SETS = [
@@ -862,6 +1044,13 @@ def gen_collector(rng):
 
 
 def gen_custom(rng, fams):
+    c = gen_custom_list(rng, fams)
+    if rng.random() < 0.5:
+        c = shape(c, rng.choice(SHAPES), rng.choice(SHAPES))
+    return c
+
+
+def gen_custom_list(rng, fams):
     mode = rng.choice(['same', 'same', 'same', 'none', 'none', 'other', 'empty', 'more'])
     if mode == 'none':
         return undescribed(*fams)
@@ -926,6 +1115,15 @@ def cases(ctx):
             for depth in ((1, 2, 3) if k == 0 or ctx.thorough else (1, 2)):
                 for ops in itertools.product(alpha, repeat=depth):
                     yield {'auto': auto, 'init_ti': None, 'colls': colls, 'ops': list(ops)}
+    # every iterable shape describe() / collect() may return: a mixed set to depth 3, each shape to depth 2
+    name, colls, autos = SHAPE_SET
+    for depth in (1, 2, 3):
+        for ops in itertools.product(op_alphabet(len(colls)), repeat=depth):
+            yield {'auto': autos[0], 'init_ti': None, 'colls': colls, 'ops': list(ops)}
+    for _sh, colls, auto in shape_sets():
+        for depth in ((1, 2, 3) if ctx.thorough else (1, 2)):
+            for ops in itertools.product(op_alphabet(len(colls)), repeat=depth):
+                yield {'auto': auto, 'init_ti': None, 'colls': colls, 'ops': list(ops)}
     # collectors changing / created series toggled in the middle of a history: every history up to depth 3 over
     # register / unregister plus the change ops, and the scenarios around one change
     for sets, envvars in ((DYNAMIC_SETS, [False]), (CREATED_SETS, [False, True])):
@@ -963,9 +1161,12 @@ def random_cases(ctx, count):
     for _ in range(count):
         n = rng.randrange(1, 7)
         if rng.random() < 0.3:
-            colls = list(rng.choice(FIXED_SETS + DYNAMIC_SETS + CREATED_SETS)[1])
+            colls = list(rng.choice(FIXED_SETS + DYNAMIC_SETS + CREATED_SETS + [SHAPE_SET])[1])
             rng.shuffle(colls)
             colls = colls[:n]
+            if rng.random() < 0.4:
+                colls = [shape(c, rng.choice(SHAPES), rng.choice(SHAPES)) if c['k'] == 'custom' and 'shape' not in c else c
+                         for c in colls]
         else:
             colls = [gen_collector(rng) for _ in range(n)]
         case = {'auto': rng.random() < 0.5, 'init_ti': rng.choice([None, None, None, TI_ON]), 'colls': colls,
